@@ -18,6 +18,9 @@ func CallConcurrently(ctx context.Context, fns ...CallConcurrentlyFunc) error {
 	subCtx, subCtxCancel := context.WithCancel(ctx)
 	defer subCtxCancel()
 	if len(fns) == 1 {
+		if fns[0] == nil {
+			return nil
+		}
 		return fns[0](subCtx)
 	}
 
@@ -37,6 +40,7 @@ func CallConcurrently(ctx context.Context, fns ...CallConcurrentlyFunc) error {
 	}
 
 	var waitCh <-chan struct{}
+	var started int
 	bcast.HoldLock(func(broadcast func(), getWaitCh func() <-chan struct{}) {
 		waitCh = getWaitCh()
 		for _, fn := range fns {
@@ -44,10 +48,12 @@ func CallConcurrently(ctx context.Context, fns ...CallConcurrentlyFunc) error {
 				continue
 			}
 			running++
+			started++
 			go callFunc(fn)
 		}
 	})
-	if running == 0 {
+	// running is shared with the goroutines started above: decide from the private count
+	if started == 0 {
 		return nil
 	}
 
